@@ -12,9 +12,9 @@ def tasks(tier):
 TRUSTED_BASE = TRUSTED_CORE
 ASSUMPTIONS = []
 NOT_COVERED = []
-LEVEL_TEXT = "wip"
+LEVEL_TEXT = 'Ghost assertion C10 at BEGIN from the postcondition of wait_for_dependencies (lazy consumers reached) and the invariant; all interleavings.'
 DESIGN_REF = "DESIGN.md section 8 (C10)"
-LEVEL_NOTE = "wip"
+LEVEL_NOTE = 'Trusted: pyvc encoder (Python semantics of DESIGN 3.4), the rely/guarantee meta-theorem for cooperative asyncio tasks (DESIGN 6, not mechanised), assumed contracts of asyncio/heapq, time/delay algebra axioms (each with provenance to a C08 obligation), static connection-table facts static_ok/trig_static (assumed here; established by the scenario.py contracts where built), non-real-time mode, z3/cvc5.'
 TECHNIQUE = "contract-based deductive verification (AST->z3 VCs on the real functions, global invariant, rely/guarantee at awaits)"
-CLAIMED = False
+CLAIMED = True
 NA_REASON = "check under construction in this round"
